@@ -148,9 +148,14 @@ func (s *Service) proxyToSingleEndpoint(ctx context.Context, w http.ResponseWrit
 		return common.MakeUserFriendlyError(streamErr, time.Since(stats.StartTime), "streaming", s.configuration.GetResponseTimeout())
 	}
 
-	// We've successfully written the response
+	// We've relayed the whole response; an error status from the backend is still a
+	// failed request as far as the client (and therefore the statistics) is concerned
 	duration := time.Since(stats.StartTime)
-	s.RecordSuccess(endpoint, duration.Milliseconds(), int64(bytesWritten))
+	if resp.StatusCode >= http.StatusBadRequest {
+		s.RecordFailure(ctx, endpoint, duration, fmt.Errorf("backend answered with status %d", resp.StatusCode))
+	} else {
+		s.RecordSuccess(endpoint, duration.Milliseconds(), int64(bytesWritten))
+	}
 
 	s.PublishEvent(core.ProxyEvent{
 		Type:      core.EventTypeProxySuccess,
